@@ -426,7 +426,7 @@ def main(argv=None):
         if tier == 'quick':
             profiles = ['small'] * 7 + ['big', 'meta', 'small']
         else:
-            profiles = (['small'] * 8 + ['big', 'meta']) * 20
+            profiles = (['small'] * 8 + ['big', 'meta']) * 15
         for i, p in enumerate(profiles):
             hists.append(('gen%d-%s' % (i, p), L.gen_history(ck.rng, p)))
     all_lines, expectations = [], []
